@@ -1,6 +1,6 @@
 (* C16 — group metadata is consistent.  In the model captures_len is the group count of the
    wrapped tree on both paths; Captures accessors are functions of the truncated save vector. *)
-From FR Require Import Base Utf8 Ast Analyze Sem Vm Compile Api ExprLemmas.
+From FR Require Import Base Utf8 Ast Analyze Sem Vm Compile Api ExprLemmas Parse ParseGroups.
 From Coq Require Import Lia.
 
 (* captures_len = 1 + number of capturing groups, on the delegated and on the VM path *)
@@ -33,10 +33,38 @@ Proof.
   intros sv n H. unfold cap_len. rewrite firstn_length_le by auto. apply Nat.div2_double.
 Qed.
 
+(* from the pattern string: the parser's group counter (what relative back-references and the
+   name table are computed from) is the number of capturing groups of the tree it returns, every
+   recorded name points at one of them, and captures_len is that counter plus one *)
+Theorem C16_parser_group_count : forall re e st, parse re = POk (e, st) -> p_group st = ngroups e.
+Proof. exact parse_groups. Qed.
+Theorem C16_names_in_range : forall re e st, parse re = POk (e, st) ->
+  Forall (fun nk => 1 <= snd nk <= ngroups e) (p_named st).
+Proof. exact parse_names_in_range. Qed.
+Theorem C16_len_from_pattern : forall bs re e st r, parse re = POk (e, st) -> regex_new bs e = inr r ->
+  regex_ngroups r = S (p_group st) /\ Forall (fun nk => 1 <= snd nk < regex_ngroups r) (p_named st).
+Proof.
+  intros bs re e st r Hp Hr. rewrite (C16_len _ _ _ Hr), (parse_groups _ _ _ Hp). split; [reflexivity|].
+  eapply Forall_impl; [|exact (parse_names_in_range _ _ _ Hp)]. cbn. intros; lia.
+Qed.
+(* non-vacuity: (?<a>x)(y)(?P<b>z) parses, with counter 3 and names b -> 3, a -> 1 *)
+Example C16_parser_ex :
+  match parse [40;63;60;97;62;120;41;40;121;41;40;63;80;60;98;62;122;41] with
+  | POk (e, st) => p_group st = 3 /\ ngroups e = 3 /\ p_named st = [([98], 3); ([97], 1)]
+  | _ => False
+  end.
+Proof. vm_compute. repeat split. Qed.
+
+Check C16_parser_group_count : forall re e st, parse re = POk (e, st) -> p_group st = ngroups e.
+Check C16_names_in_range : forall re e st, parse re = POk (e, st) ->
+  Forall (fun nk => 1 <= snd nk <= ngroups e) (p_named st).
 Check C16_len : forall bs e r, regex_new bs e = inr r -> regex_ngroups r = S (ngroups e).
 Check C16_get_oob : forall sv i, cap_len sv <= i -> Nat.Even (length sv) -> cap_get sv i = None.
 
 Print Assumptions C16_len.
+Print Assumptions C16_parser_group_count.
+Print Assumptions C16_names_in_range.
+Print Assumptions C16_len_from_pattern.
 Print Assumptions C16_group_range.
 Print Assumptions C16_get_oob.
 Print Assumptions C16_len_truncated.
